@@ -52,6 +52,7 @@ func init() {
 		{"cancel_mid_dial", "context cancellation at a seeded point of DialContext", scCancelMidDial},
 		{"dial_dead", "dial to a service nobody listens on, to an unknown node, and ping failures", scDialDead},
 		{"ping_notice_race", "an unreachable notice for a ping arrives while SendPing returns for another reason (cancelled, answered)", scPingNoticeRace},
+		{"open_race_shutdown", "sockets opened and closed while the node shuts down and its notice broker is busy", scOpenRaceShutdown},
 		{"stream_close_kinds", "dial+accept, then every order of Close / CloseConnection on both ends; dialler registry must return to baseline", scStreamCloseKinds},
 	}
 }
@@ -763,4 +764,64 @@ func scPingNoticeRace(e *b1env) {
 		}
 		e.res.Evaluations++
 	}
+}
+
+// scOpenRaceShutdown: a third node is shut down while sockets are being opened on it and unreachable notices are
+// being published (the broker goroutine is between two selects when the context is cancelled).
+func scOpenRaceShutdown(e *b1env) {
+	for it := 0; it < 150; it++ {
+		id := fmt.Sprintf("x%d", it)
+		nd := e.m.Start(id)
+		stop := make(chan struct{})
+		var wg sync.WaitGroup
+		src, err := nd.N.ListenPacket("src")
+		if err != nil {
+			e.res.inconclusive("listen: %v", err)
+
+			return
+		}
+		for k := 0; k < 2; k++ {
+			wg.Add(1)
+			go func() {
+				defer wg.Done()
+				msg := []byte(`{"FromNode":"` + id + `","ToNode":"zz","FromService":"src","ToService":"q","Problem":"test"}`)
+				for {
+					select {
+					case <-stop:
+						return
+					default:
+					}
+					_, _ = src.WriteTo(msg, nd.N.NewAddr(id, "unreach"))
+				}
+			}()
+		}
+		wg.Add(1)
+		go func() {
+			defer wg.Done()
+			for j := 0; ; j++ {
+				select {
+				case <-stop:
+					return
+				default:
+				}
+				if pc, err := nd.N.ListenPacket(""); err == nil {
+					if j%2 == 0 {
+						_ = pc.Close()
+					}
+				}
+			}
+		}()
+		time.Sleep(time.Duration(200+e.rng.Intn(1500)) * time.Microsecond)
+		e.m.Stop(id)
+		time.Sleep(time.Duration(500+e.rng.Intn(1500)) * time.Microsecond)
+		close(stop)
+		if !within(20*time.Second, wg.Wait) {
+			e.viol("stuck-after-shutdown", "socket operations on a node being shut down did not return within 20 s", nil)
+
+			return
+		}
+		e.res.Evaluations++
+	}
+	// the stopped nodes' sockets were never closed by their owner: only goroutines matter here
+	e.base["a"], e.base["b"] = regSize(e.a), regSize(e.b)
 }
